@@ -30,8 +30,16 @@ func cmdSelftest(args []string) int {
 	var wg sync.WaitGroup
 	sem := make(chan bool, 4)
 	for i, f := range files {
-		if filter != "" && !strings.Contains(f, filter) {
-			continue
+		if filter != "" {
+			match := false
+			for _, alt := range strings.Split(filter, ",") {
+				if strings.Contains(f, alt) {
+					match = true
+				}
+			}
+			if !match {
+				continue
+			}
 		}
 		wg.Add(1)
 		go func(i int, f string) {
@@ -112,6 +120,16 @@ func cmdSelftest(args []string) int {
 		if r.status == "MISSED" || r.status == "ERROR" {
 			missed++
 		}
+	}
+	ran := 0
+	for _, r := range results {
+		if r.name != "" {
+			ran++
+		}
+	}
+	if ran == 0 {
+		fmt.Println("selftest: no mutant matched the filter")
+		return 1
 	}
 	if missed > 0 {
 		fmt.Printf("selftest: %d mutant(s) not caught\n", missed)
